@@ -272,6 +272,24 @@ def try_success_edge(fn, call_term):
                             cont = tt["else"]
                         return cand, cont, brk
                     break
+    # the same decision spelled `match f(..) { Ok(v) => .., Err(e) => .. }`: a switch on the discriminant of the Result itself
+    for cand, bk in enumerate(fn.blocks):
+        tt = bk["t"]
+        if tt["t"] != "switch" or bk.get("cleanup"):
+            continue
+        var = tt.get("variants") or {}
+        if var.get("enum") not in ("core::result::Result", "core::option::Option"):
+            continue
+        o = fn.origin(tt["on"])
+        if o[0] == "rvalue" and o[1][0] == "discr" and o[1][1] and o[1][1][0] in als and not [p for p in o[1][1][1:] if p != "*"]:
+            names = var["names"]
+            cont = brk = None
+            for v, tb in tt["vals"]:
+                if names.get(v) in ("Ok", "Some"):
+                    cont = tb
+                elif names.get(v) in ("Err", "None"):
+                    brk = tb
+            return cand, (cont if cont is not None else tt["else"]), (brk if brk is not None else tt["else"])
     return None
 
 
@@ -642,9 +660,16 @@ def enumerate_paths(fn, start, on_call, max_paths=400, follow_errors=False, on_s
                 if tk is not None:
                     toks = toks + [tk]
             env = step_env(env, st)
+            if st[0] == "=" and st[1] == [0]:
+                # what the function returns on this path: an explicit `Err(..)` is not a success path
+                isret = st[2][0] == "agg" and st[2][1].get("def") == "core::result::Result" and st[2][1].get("vname") == "Err"
+                env = dict(env)
+                env["__returns_err"] = 1 if isret else 0
         t = b["t"]
         k = t["t"]
         if k == "ret":
+            if env.get("__returns_err") and not follow_errors:
+                return          # `match r { Err(e) => return Err(..) }`: the same exit as `r?`, spelled out
             out.append((conds, toks))
             return
         if k in ("goto", "drop", "assert"):
